@@ -69,8 +69,11 @@ def thread_map_entries(repo: Repo, run: Run) -> None:
 def string_index_obligations(repo: Repo, run: Run) -> None:
     """"every log record ... with its strings resolved through the dump's string index": which fields of a record are numbers
     of the string index, and that each is replaced by `log_strings[number]`, is C16/R6 - a necessary condition here."""
+    if getattr(run, "is_probe", False):
+        return
     from . import c16
     probe = Run("C16", run.tier, run.repo_root)
+    probe.is_probe = True
     try:
         c16.check(repo, probe)
     except AnalysisError:
@@ -82,6 +85,13 @@ def string_index_obligations(repo: Repo, run: Run) -> None:
             run.ob("R10", o["module"], o["scope"], f"log record strings (C16/R6): {o['construct']}", o["ok"],
                    (o.get("what", "") + " - the log records parse_v3 yields then carry a string number (or the wrong text) instead of "
                     "the text the dump's string index gives for it") if not o["ok"] else "", nontrivial=False)
+    for o in probe.obligations:
+        if o["rule"] == "R12":
+            # (C16/R12 records an obligation only where a decoded field is stored on the truthiness of its raw value: string
+            # number 0 of the index is then never resolved)
+            run.ob("R10", o["module"], o["scope"], f"log record strings (C16/R12): {o['construct']}", o["ok"],
+                   (o.get("what", "") + " - string number 0 of the dump's string index is a string like any other") if not o["ok"] else "",
+                   nontrivial=False)
     run.floor("R10", "string-index obligations taken over from C16", n, 9)
 
 
